@@ -349,12 +349,12 @@ type evRow struct {
 }
 
 type evLedger struct {
-	Rows    []*evRow
-	ByID    map[string]*evRow
-	RawByID map[string]map[string]any
-	WMFinal int64
-	MinTS   int64 // min usable ts over accepted rows
-	MinOnT  int64 // min ts over on-time rows
+	Rows        []*evRow
+	ByID        map[string]*evRow
+	RawByID     map[string]map[string]any
+	WMFinal     int64
+	MinTS       int64 // min usable ts over accepted rows
+	MinOnT      int64 // min ts over on-time rows
 	IngestKnown bool
 }
 
@@ -854,4 +854,3 @@ func checkLateRow(e *Env, sp *evSpec, l *evLedger, er *evRow, covers []interval,
 		}
 	}
 }
-
